@@ -24,6 +24,10 @@ def jobs(tier, seed):
                  scheds=2, lazy=[0, 50], p_fail=0.45, name="free")
     js += batches("conduct", scale(tier, 140, 3000), scale(tier, 20, 100), gen="mix", p_loop=0.3, P=PR, gseed=seed + 1,
                   scheds=2, lazy=[0, 50], p_fail=0.45, ctl=dict(req=0.08, max_req=3, crash=0.03), name="random-ctl")
+    # a retried task that shares its staged entry with arriving branches (integer join / cycle) and has its own delay
+    js += batches("conduct", scale(tier, 160, 3000), scale(tier, 20, 100), gen="dag", gseed=seed + 2, scheds=2, lazy=[0, 60],
+                  p_fail=0.5, P=dict(PR, p_join=0.9, p_intjoin=0.9, p_intjoin_less=0.9, p_delay=0.6, p_retry=0.9, nmax=5,
+                                     p_items=0.0), name="retry-at-shared-staged-entry")
     return js
 
 
